@@ -164,6 +164,16 @@ func (w *World) CheckInstance(inst *Instance, class string, cc *crashCtx) {
 		}
 	}
 	w.CheckLedger(inst, class)
+	if len(w.Violations) > 0 || w.S.CrashRequested || inst.Dead {
+		return
+	}
+	// the pending set lives in the store too: after whatever happened nothing
+	// confirmed or conflicted may stay pending and everything reads back
+	// (rolled-back transactions are what populates it in these histories)
+	if pend, ok := w.PendingSet(inst); ok && !(w.S.CrashRequested || inst.Dead) {
+		w.WalletsComeAndGo = true
+		w.CheckPendingGlobal(inst, pend, nil, class)
+	}
 }
 
 // runHistory executes a generated history of chain and wallet operations on
